@@ -174,10 +174,9 @@ theorem realifyL_iso (x y : Fin (N1 * (N2 + N2)) → ℝ) :
     congr 1
     exact Finset.sum_congr rfl fun b _ => by rw [Nat.add_assoc]
   simp only [hrow]
-  rw [← Equiv.sum_comp finProdFinEquiv (fun p => x p * y p), Fintype.sum_prod_type, ← Finset.sum_range (fun a =>
-    ∑ b ∈ range (N2 + N2), gd x (a * (2 * N2) + b) * gd y (a * (2 * N2) + b))]
+  rw [← Equiv.sum_comp finProdFinEquiv (fun p => x p * y p), Fintype.sum_prod_type, Finset.sum_range]
   refine Finset.sum_congr rfl fun a _ => ?_
-  rw [← Finset.sum_range (fun b => gd x (a.val * (2 * N2) + b) * gd y (a.val * (2 * N2) + b))]
+  rw [Finset.sum_range]
   refine Finset.sum_congr rfl fun b _ => ?_
   have hlt : a.val * (2 * N2) + b.val < N1 * (N2 + N2) := by
     calc a.val * (2 * N2) + b.val < a.val * (2 * N2) + (N2 + N2) := by omega
